@@ -101,7 +101,10 @@ def run(chk):
                                 p.data = (c * x)
                             else:
                                 if np.iscomplexobj(p.data) or not np.iscomplexobj(c):
-                                    p.data *= c
+                                    try:
+                                        p.data *= c
+                                    except (ValueError, TypeError):
+                                        p.data = c * x        # the attribute hands out a read-only array
                                 else:
                                     p.data = c * x
                         return zoo.outputs(nm, p)
